@@ -225,6 +225,26 @@ Example C10_nonvacuous_media :
   (exists c, classify any_ok any_ok any_ok repaired st_room (IDoc ex_chat_refresh) = VDispatch [c; CStore true]).
 Proof. exact media_examples. Qed.
 
+(* ---- strengthening s10: "the sender gets either a well-formed reply or error or is ignored" --------------------------
+   An error message carries its error member and a non-empty code.  Every reply this layer answers with by
+   itself is such an error (for every frame, state and oracle: the replies of [effect_of] of every verdict), and
+   passes the clause [reply_wf] of P_C10.  A hello handed to processHello is answered behind the dispatch: the
+   run accepts a hello reply or an error WITH a code carrying the id of the request, and nothing else. *)
+Theorem C10_error_replies_coded : forall url_ok requri_ok sdp_ok fx st i code id,
+  In (code, id) (e_replies (effect_of (classify url_ok requri_ok sdp_ok fx st i))) -> code <> "".
+Proof. intros. eapply error_replies_coded; eauto. Qed.
+
+Theorem C10_model_replies_wellformed : forall url_ok requri_ok sdp_ok fx st i,
+  forallb reply_wf (map (fun e => RError (fst e) (snd e)) (e_replies (effect_of (classify url_ok requri_ok sdp_ok fx st i)))) = true.
+Proof. intros. apply model_replies_wf. Qed.
+
+Example C10_nonvacuous_reply_wf :
+  reply_wf (RError "" "h") = false /\ reply_wf RBad = false /\ reply_wf (RError "invalid_token" "h") = true /\ reply_wf (RHello "h") = true /\
+  reply_allowed "h" (CHello "2.0" [] (HClient true false "u" JNull "t")) (RError "" "h") = false /\
+  reply_allowed "h" (CHello "2.0" [] (HClient true false "u" JNull "t")) (RError "invalid_token" "h") = true /\
+  reply_allowed "h" (CHello "2.0" [] (HClient true false "u" JNull "t")) (RError "invalid_token" "other") = false.
+Proof. exact reply_wf_examples. Qed.
+
 Print Assumptions C10_schema.
 Print Assumptions C10_schema_params.
 Print Assumptions C10_size_limit.
@@ -245,3 +265,5 @@ Print Assumptions C10_store_total.
 Print Assumptions C10_not_looped.
 Print Assumptions C10_self_control_dropped.
 Print Assumptions C10_self_message_dropped.
+Print Assumptions C10_error_replies_coded.
+Print Assumptions C10_model_replies_wellformed.
